@@ -137,12 +137,6 @@ Proof. intros A a b x H Hi. apply NoDup_remove_2 in H. apply H. apply in_or_app.
 Lemma NoDup_snoc_prefix : forall {A} (a b : list A) x, NoDup (a ++ x :: b) -> NoDup ((a ++ [x]) ++ b).
 Proof. intros. now rewrite <- app_assoc. Qed.
 
-Fixpoint nodup_keys (l : list (list tok)) : bool :=
-  match l with
-  | [] => true
-  | k :: l' => negb (existsb (toks_eqb k) l') && nodup_keys l'
-  end.
-
 Lemma nodup_keys_NoDup : forall l, nodup_keys l = true -> NoDup l.
 Proof.
   induction l as [|k l IH]; intros H; [constructor|].
